@@ -362,3 +362,26 @@ func VH_C02_duplex_absorb_binds_every_byte() { VH_C13_absorb_equals_specificatio
 //verif:cover encrypt;decrypt;wrong-mode-panics
 //verif:timeout 600
 func VH_C02_duplex_crypt_binds_every_byte() { VH_C13_encrypt_decrypt_equal_specification() }
+
+// C10: the handshake drives the duplex with lengths the NETWORK chooses
+// (certificate vectors of length 0, empty SNI ...): no operand length may crash it.
+//
+//verif:prop C10
+//verif:replay none
+//verif:solver cvc5
+//verif:bounds as VH_C13_encrypt_decrypt_equal_specification (operand lengths include 0)
+//verif:cover encrypt;decrypt;wrong-mode-panics
+//verif:timeout 600
+func VH_C10_duplex_crypt_never_panics_on_any_operand_length() {
+	VH_C13_encrypt_decrypt_equal_specification()
+}
+
+//verif:prop C10
+//verif:replay none
+//verif:solver cvc5
+//verif:bounds as VH_C13_absorb_equals_specification (operand lengths include 0)
+//verif:cover compared
+//verif:timeout 600
+func VH_C10_duplex_absorb_never_panics_on_any_operand_length() {
+	VH_C13_absorb_equals_specification()
+}
